@@ -143,6 +143,8 @@ class Index:
                 normalise_tree(tree)
                 self.mods[name] = Module(name, p, os.path.relpath(p, self.repo), src, tree)
         self.digest = h.hexdigest()[:16]
+        Index._serial = getattr(Index, "_serial", 0) + 1
+        self.serial = f"#{Index._serial}"  # caches keyed by it never mix objects of two Index instances
         for m in self.mods.values():
             self._index_module(m)
 
